@@ -197,6 +197,9 @@ def int_bytes(x, n, signed=True):
 def new_exec(mode, feas_ms=None):
     m = mir()
     ex = Exec(m["fns"], m["consts"], m["enums"], mode=mode, timeout_ms=feas_ms or (400 if mode == "fp" else 5000))
+    if mode == "real":
+        from mirsmt import models as _models
+        _models.install_sci(ex)
     return ex
 
 
